@@ -77,6 +77,9 @@ type c18Plan struct {
 	Gates      int       `json:"gates,omitempty"`
 	Small      bool      `json:"small_blocks,omitempty"`
 	T4ms       int       `json:"t4_ms,omitempty"` // 0: the default c18T4 (10 s, never in play)
+	T1ms       int       `json:"t1_ms,omitempty"` // 0: the default c18T1
+	T2ms       int       `json:"t2_ms,omitempty"` // 0: the default c18T2
+	Phantom    bool      `json:"embedded_block_image,omitempty"`
 	Desc       string    `json:"desc"`
 }
 
@@ -312,6 +315,19 @@ func c18Plans(seed uint64, quick bool) []c18Plan {
 			add(p)
 		}
 	}
+	// E4. a character-paced line and a length character corrupted DOWNWARDS: the receiver takes a prefix of the block
+	// for the block, finds the checksum wrong and must keep listening until the line has been silent for T1 before it
+	// answers NAK. The rest of the block follows 10 ms later (T1 = 400 ms here, T2 = 1.5 s): it is still part of the
+	// bad transmission, not line traffic - although it contains an ENQ followed by the image of a valid block.
+	for role := 0; role < 2; role++ {
+		for ki, k := range []int{126, 60, 200} {
+			sh := rule(role, e4mitm.OnBlock, 1, e4mitm.OpShorten)
+			sh.K, sh.Delay = k, 10*time.Millisecond
+			p := c18Plan{Family: "shorten-length", Retry: 2 + ki%2, HostActive: (role+ki)%2 == 0, T1ms: 400, T2ms: 1500, Phantom: true, Rules: []c18Rule{sh}}
+			p.Msgs = msgsFor(role, []int{2, 1}, []int{1})
+			add(p)
+		}
+	}
 	// F. contention without any other fault
 	nCont := 32
 	if !quick {
@@ -453,6 +469,7 @@ type c18Scenario struct {
 	sendFail uint64
 	finalSel [2]bool
 	altered  []string // delivered messages that no longer say what they said in the handler
+	splitGaps []time.Duration // shorten plans: measured time between the head and the tail of the shortened block
 	off      time.Duration // c18Send.Call/Ret + off = the same instant on the history's clock (Ev.T)
 }
 
@@ -514,7 +531,15 @@ func c18Run(env *fw.Env, p *c18Plan) *c18Scenario {
 			t4 = time.Duration(p.T4ms) * time.Millisecond
 		}
 
-		return s1New(s1Opts{Equip: role == roleE, Dev: 7, Active: active, Port: port, T1: c18T1, T2: c18T2, T4: t4, Retry: p.Retry})
+		t1, t2 := c18T1, c18T2
+		if p.T1ms > 0 {
+			t1 = time.Duration(p.T1ms) * time.Millisecond
+		}
+		if p.T2ms > 0 {
+			t2 = time.Duration(p.T2ms) * time.Millisecond
+		}
+
+		return s1New(s1Opts{Equip: role == roleE, Dev: 7, Active: active, Port: port, T1: t1, T2: t2, T4: t4, Retry: p.Retry})
 	}
 	pe, err := mk(passiveRole, false, 0)
 	if err != nil {
@@ -567,6 +592,11 @@ func c18Run(env *fw.Env, p *c18Plan) *c18Scenario {
 	for role := 0; role < 2; role++ {
 		for n, blocks := range p.Msgs[role] {
 			payload, body := c18Payload(r, p.Idx, role, n, blocks, p.Small)
+			if p.Phantom && n == 0 && len(p.Rules) > 0 && p.Rules[0].Role == roleName(role) && len(body) > 230 {
+				// an ENQ and the image of a valid single-block S5F1 for the receiver, inside the first block's body
+				ph := e4.Block{Header: e4.Header{Device: 7, R: role == roleE, Stream: 5, Function: 1, E: true, Block: 1, System: [4]byte{0xFA, 0x17, byte(p.Idx >> 8), byte(p.Idx)}}, Body: []byte{0x41, 0x01, 'P'}}
+				copy(body[210:], append([]byte{e4.ENQ}, ph.Wire()...))
+			}
 			_ = payload
 			sc.sends[role] = append(sc.sends[role], &c18Send{Role: role, Idx: n, Blocks: blocks, S: uint8(1 + r.IntN(100)), F: uint8(1 + 2*r.IntN(100)), Body: body, Token: string(body[len(body)-len(payload):][:8])})
 		}
@@ -644,6 +674,9 @@ func c18Run(env *fw.Env, p *c18Plan) *c18Scenario {
 
 	// quiescence: no character crossing for T2+T1+margin and every successful send delivered, or a generous bound
 	quiet := c18T2 + c18T1 + 100*time.Millisecond
+	if p.T1ms > 0 || p.T2ms > 0 {
+		quiet = time.Duration(max(p.T1ms, int(c18T1/time.Millisecond))+max(p.T2ms, int(c18T2/time.Millisecond)))*time.Millisecond + 100*time.Millisecond
+	}
 	allDelivered := func() bool {
 		for role := 0; role < 2; role++ {
 			got := ends[1-role].Deliveries(0)
@@ -699,6 +732,7 @@ func c18Run(env *fw.Env, p *c18Plan) *c18Scenario {
 	smu.Unlock()
 	sc.hist = mitm.History()
 	sc.applied, sc.gateHits = mitm.Applied()
+	sc.splitGaps = mitm.SplitGaps()
 	ae.Close()
 	pe.Close()
 	mitm.Close()
@@ -770,6 +804,18 @@ func c18Judge(env *fw.Env, p *c18Plan, sc *c18Scenario, final bool) {
 				env.Event("flip_positions_covered", 1)
 			}
 		}
+	}
+	if p.Family == "shorten-length" {
+		// premise: the rest of the block reached the receiver well inside its T1
+		for _, g := range sc.splitGaps {
+			if 2*g >= time.Duration(p.T1ms)*time.Millisecond {
+				env.Note("plan %d [shorten-length]: the tail followed the head after %v (T1 %d ms): premise not met", p.Idx, g, p.T1ms)
+				env.Discard()
+
+				return
+			}
+		}
+		env.Event("shortened_blocks_with_tail_inside_t1", int64(len(sc.splitGaps)))
 	}
 	env.Event("gate_contentions_made", int64(sc.gateHits))
 	env.Event("lib_dup_drops", int64(sc.dupDrops))
